@@ -307,6 +307,9 @@ class _Fn:
       return set()
     if d.kind == 'aug':
       aug = d.value
+      if getattr(aug, '_fjsa_rebind', False):
+        # written as x = x + e: a new object, which may hold the elements of both operands but aliases neither container
+        return _container(self.tags(aug.value))
       prev: Set[Tag] = set()
       n = d.node
       for pd in self.ff.rd.reaching(n, d.name):
@@ -550,7 +553,7 @@ class _Fn:
           stmt = ff.module.enclosing_stmt(x)
           report(stmt if stmt is not None else x, x.value,
                  'store through ' + ('subscript' if isinstance(x, ast.Subscript) else 'attribute'))
-        elif isinstance(x, ast.AugAssign) and isinstance(x.target, ast.Name):
+        elif isinstance(x, ast.AugAssign) and isinstance(x.target, ast.Name) and not getattr(x, '_fjsa_rebind', False):
           if isinstance(x.value, (ast.List, ast.ListComp)) or (
               isinstance(x.value, ast.Call) and ff.ext(x.value.func) == 'builtins.list'):
             report(x, x.target, 'in-place list extension (+=)')
